@@ -72,8 +72,8 @@ pub fn tracegen_only(prop: &str, seed: u64, runs: usize, only: Option<usize>) ->
                 prop,
                 run,
                 s,
-                Knobs { max_virtuals: 4, bidir: true, p_c: 0.08, max_stmts: 14, suffix_names: run % 3 == 0, ..Knobs::control_flow() },
-                Opt { layouts: LayoutMode::Subset, mode: ValMode::Wild, p_zx: 0.06, ..Opt::default() },
+                Knobs { max_virtuals: 4, bidir: true, p_c: 0.08, max_stmts: 14, suffix_names: run % 3 == 0, absorbing_virtuals: run % 2 == 1, ..Knobs::control_flow() },
+                Opt { layouts: LayoutMode::Subset, mode: ValMode::Wild, p_zx: if run % 2 == 1 { 0.15 } else { 0.06 }, ..Opt::default() },
             ),
             "C17" => {
               crate::OS_ENTROPY.store(run % 2 == 1, std::sync::atomic::Ordering::Relaxed);
